@@ -45,7 +45,8 @@ ASSUMPTIONS = [
 _REF_CACHE = {}
 
 
-def parse_division(boundary, body, cuts, want_states=True):
+def parse_division(boundary, body, cuts, want_states=True, empties=()):
+    """empties: edges (0 = before the first byte) at which an empty buffer is handed to the parser as well."""
     from ombott.request_pkg.multipart import MultipartMarkup
     mk = MultipartMarkup(boundary)
     m = mk._markuper
@@ -54,12 +55,16 @@ def parse_division(boundary, body, cuts, want_states=True):
     prev = 0
     carried = 0
     edges = [c for c in cuts if 0 < c < len(body)]
+    if 0 in empties:
+        mk.parse(b'')
     for c in edges + [len(body)]:
         chunk = body[prev:c]
         prev = c
         if not chunk:
             continue
         mk.parse(chunk)
+        if c in empties:
+            mk.parse(b'')
         if want_states and c < len(body):
             st = (getattr(m.cur_meth, '__name__', '?'), min(m.trest_len or 0, 9),
                   getattr(he.eat_meth, '__name__', '?'),
@@ -167,6 +172,10 @@ def gen_case(rng, tier):
             case['tchunks'] = [rng.choice([1, 2, 3, 7, 16, 50, 97, 1000]) for _ in range(rng.choice([1, 2, 3]))]
             wl = 2 * n + 64
             case['cuts'] = sorted(set(rng.randrange(1, wl) for _ in range(k)))
+    elif rng.random() < 0.12:
+        # a degenerate division: empty buffers handed to the parser at some of the edges (and at both ends)
+        cand = [0] + case['cuts'] + [n]
+        case['empties'] = sorted(set(rng.sample(cand, min(len(cand), rng.choice([1, 1, 2, 4])))))
     elif rng.random() < 0.15:
         # a second upload parsed at the same time by another parser object, chunks arriving alternately
         st2 = gm.gen_structure(rng, token_only=False, max_parts=3, max_data=40)
@@ -267,7 +276,9 @@ def run_case(case):
     n = len(body)
     log('len', n, 'cuts', cuts, 'level', case['level'])
     if case['level'] == 'a':
-        got, states, carried = parse_division(boundary, body, cuts)
+        got, states, carried = parse_division(boundary, body, cuts, empties=case.get('empties') or ())
+        if case.get('empties'):
+            res['fired']['empty_read_buffer'] += 1
         ref = _ref_a(boundary, body)
         log('got', digest(got))
         if case.get('other') is not None:
@@ -382,6 +393,8 @@ def shrink_candidates(case):
             out.append(c)
         return out
 
+    for i in range(len(case.get('empties') or ())):
+        yield shrink.with_key(case, 'empties', case['empties'][:i] + case['empties'][i + 1:])
     # fewer cuts first (cheapest)
     for sc in simpler_schedules({'mode': 'cuts', 'cuts': case['cuts']}):
         if sc['mode'] == 'cuts':
